@@ -14,6 +14,6 @@ for p in claimed:
     subprocess.run([V+'/check',p,'quick'],stdout=subprocess.DEVNULL)
     ev=json.load(open(f'{V}/evidence/{p}.json'))
     pr=ev['coverage']['per_rule']
-    fl[p]={r:max(1,n//2) for r,n in sorted(pr.items()) if r!='floor' and not r.startswith('cg-vta') and not r.endswith('-table')}
+    fl[p]={r:max(1,n//2) for r,n in sorted(pr.items()) if r not in ('floor','floors','known-findings') and not r.startswith('cg-vta') and not r.endswith('-table')}
 json.dump(fl,open(V+'/tables/floors.json','w'),indent=1)
 print({p:sum(v.values()) for p,v in fl.items()})
